@@ -2,6 +2,13 @@
 
 #include "type.h"
 
+#ifdef PSTLAB_ORATIO_VERIF
+namespace oratio_verif
+{
+  struct access;
+}
+#endif
+
 namespace ratio
 {
   class item;
@@ -14,6 +21,9 @@ namespace ratio
   class enum_type : public type
   {
     friend class ast::enum_declaration;
+#ifdef PSTLAB_ORATIO_VERIF
+    friend struct ::oratio_verif::access;
+#endif
 
   public:
     enum_type(scope &scp, std::string name);
